@@ -41,7 +41,13 @@ def obs (g : Net) (o : Obs) : String :=
   let itr := String.intercalate "," (o.flatMap fun (i, _, outs) => outs.filterMap (fun x => match x with
     | .inst j st => some s!"{i}:{j}:{st.code}" | _ => none))
   let bad := (List.range g.n).foldl (fun acc i => acc + (g.inst i).oracleBad) 0
-  s!"{insts} q={qs} in={ib} err=[{errs}] act=[{acts}] tr=[{trace}] it=[{itr}] ob={bad}"
+  -- the replicated process database: per instance, per program, synthetic state and the instances listed
+  let pv := if g.nproc == 0 then "" else
+    " pv=[" ++ String.intercalate "/" ((List.range g.n).map fun i => String.intercalate "," ((List.range g.nproc).map fun p =>
+      let x := g.proc i p
+      let run := sortNat x.running
+      s!"{x.state.code}:{if run.isEmpty then "-" else String.intercalate "" (run.map toString)}")) ++ "]"
+  s!"{insts} q={qs} in={ib} err=[{errs}] act=[{acts}] tr=[{trace}] it=[{itr}] ob={bad}{pv}"
 
 def parseOracle (s : String) : List (Query × Nat) :=
   (s.splitOn ",").filterMap (fun w =>
@@ -155,26 +161,37 @@ def parseInjected (spec : List String) : Option (Option Op) :=
     | _, _ => none
   | _ => none
 
-def stepAct (g : Net) (now : Nat) (rest : List String) : Option (Net × Obs) :=
+def showFate : Fate → String
+  | .inflight => "inflight" | .delivered => "delivered" | .filtered v => s!"filtered-while-{v.code}"
+  | .refused v => s!"refused-while-{v.code}" | .noInfo => "no-info" | .dropped => "dropped" | .vanished => "vanished"
+
+/-- GHOST report: the fate of the last report of `src` about `p` towards `dst`, for every triple whose fate is not `delivered` -/
+def showFates (g : Net) : String :=
+  ",".intercalate ((g.fate.filter (fun x => x.2 != .delivered)).map fun ((s, d, p), f) => s!"{s}>{d}:{p}:{showFate f}")
+
+def parseAct (rest : List String) : Option Act :=
   match rest with
+  | ["fates"] => some .nop
   | "inject" :: j :: spec =>
     match j.toNat?, parseInjected spec with
-    | some j, some (some op) => some (let (g', e, o) := g.handle now j op; (g', [(j, e, o)]))
-    | some j, some none => some (g, [(j, none, [])])
+    | some j, some op => some (.inject j op)
     | _, _ => none
-  | ["running", i] => some (let (g', e, o) := g.handle now i.toNat! .running; (g', [(i.toNat!, e, o)]))
-  | ["tick", i] => some (g.tick now i.toNat!)
-  | ["exec", i, j] => some (g.exec now i.toNat! j.toNat!)
-  | ["deliver", j] => some (g.deliver now j.toNat!)
-  | ["deliver", j, _origin] => some (g.deliver now j.toNat!)
-  | ["crash", i] => some ({ g with up := g.up.set i.toNat! false }, [])
-  | ["restart", i] => some (g.restart now i.toNat!, [])
-  | ["cut", i, j] => some ({ g with cut := g.cut ++ [(i.toNat!, j.toNat!)] }, [])
-  | ["heal"] => some ({ g with cut := [] }, [])
-  | ["rpc", i, "restart"] => some (g.rpcRestart now i.toNat! false)
-  | ["rpc", i, "shutdown"] => some (g.rpcRestart now i.toNat! true)
-  | ["rpc", i, "end_sync", m] => some (g.rpcEndSync now i.toNat! (parseOptNat m))
+  | ["running", i] => some (.running i.toNat!)
+  | ["tick", i] => some (.tick i.toNat!)
+  | ["exec", i, j] => some (.exec i.toNat! j.toNat!)
+  | ["deliver", j] => some (.deliver j.toNat!)
+  | ["deliver", j, _origin] => some (.deliver j.toNat!)
+  | ["crash", i] => some (.crash i.toNat!)
+  | ["restart", i] => some (.restart i.toNat!)
+  | ["cut", i, j] => some (.cut i.toNat! j.toNat!)
+  | ["heal"] => some .heal
+  | ["pev", i, p, st, ex] => some (.pev i.toNat! p.toNat! ((Supv.Proc.PState.ofCode st.toNat!).getD .unknown) (s2b ex))
+  | ["rpc", i, "restart"] => some (.rpcRestart i.toNat! false)
+  | ["rpc", i, "shutdown"] => some (.rpcRestart i.toNat! true)
+  | ["rpc", i, "end_sync", m] => some (.rpcEndSync i.toNat! (parseOptNat m))
   | _ => none
+
+def stepAct (g : Net) (now : Nat) (rest : List String) : Option (Net × Obs) := (parseAct rest).map (g.step now)
 
 def stepLine (d : D) (line : String) : D × String :=
   let parts := line.splitOn "|"
@@ -195,6 +212,11 @@ def stepLine (d : D) (line : String) : D × String :=
     let n := d.cfgs.length
     ({ d with net := Net.init d.cfgs now.toNat!,
               prev := List.replicate n { fsm := 0, master := none, inst := List.replicate n 0 } }, "ok")
+  | ["start", now, nproc, known] =>
+    let n := d.cfgs.length
+    let kn := (known.splitOn "/").map parseNatList
+    ({ d with net := (Net.init d.cfgs now.toNat!).withProcs nproc.toNat! kn,
+              prev := List.replicate n { fsm := 0, master := none, inst := List.replicate n 0 } }, "ok")
   | "act" :: now :: rest =>
     let g := { d.net with oracle := oracle }
     match stepAct g now.toNat! rest with
@@ -209,7 +231,8 @@ def stepLine (d : D) (line : String) : D × String :=
         | _ => none
       let verdicts := if cur.length == n then judge d.cfgs n d.prev cur implObs fresh delivery else ["unparsable"]
       let j := if verdicts.isEmpty then "J:ok" else "J:" ++ ";".intercalate verdicts
-      ({ d with net := g', prev := if cur.length == n then cur else d.prev }, obs g' o ++ " | " ++ j)
+      let ft := match rest with | ["fates"] => " | F:" ++ showFates g' | _ => ""
+      ({ d with net := g', prev := if cur.length == n then cur else d.prev }, obs g' o ++ " | " ++ j ++ ft)
   | _ => (d, "bad-op")
 
 def main : IO Unit := runLoop ({} : D) stepLine
